@@ -367,6 +367,16 @@ func (c09) Exec(h []Ev) []Ev {
 						st.segs = append(st.segs, scte35.CreateSegmentationDescriptor())
 						st.order = append(st.order, "s")
 					}
+					if GI0(e["ord"])%3 == 1 && len(st.segs) > 0 {
+						// the descriptors belonged to another signal before they were given to this one
+						donor := scte35.CreateSCTE35()
+						dc := scte35.CreateTimeSignalCommand()
+						dc.SetHasPTS(true)
+						donor.SetCommandInfo(dc)
+						donor.SetPTS(77777)
+						donor.SetDescriptors(st.segs)
+						donor.UpdateData()
+					}
 					s.SetDescriptors(st.segs)
 					e["raw0"] = B(s.Data())
 				}
